@@ -106,6 +106,8 @@ def edit_torrent(metafile: str, args: dict) -> dict:
     logger.debug("editing torrent file %s", metafile)
     meta = pyben.load(metafile)
     info = meta["info"]
+    # the request stays the caller's: filtering works on a copy
+    args = dict(args)
     filter_empty(args, meta, info)
 
     if "comment" in args:
